@@ -36,6 +36,7 @@ import (
 	metallbv1beta1 "go.universe.tf/metallb/api/v1beta1"
 	"go.universe.tf/metallb/internal/config"
 	"go.universe.tf/metallb/internal/layer2"
+	"go.universe.tf/metallb/internal/speakerlist"
 )
 
 type vmClient struct{}
@@ -51,7 +52,7 @@ type vmSpeaker struct {
 	ann *layer2.Announce
 }
 
-func vmNewSpeaker(t *testing.T, node string, sl *vSL, ignore bool) *vmSpeaker {
+func vmNewSpeaker(t *testing.T, node string, sl SpeakerList, ignore bool) *vmSpeaker {
 	newBGP = (&fakeBGP{t: t}).NewSessionManager
 	c, err := newController(controllerConfig{
 		MyNode:                node,
@@ -164,7 +165,12 @@ func vmGenView(r *rand.Rand) vView {
 	for i := range v.Nodes {
 		v.Nodes[i].Known = true
 	}
-	v.Disabled = false
+	// one history in three runs with fast dead-node detection OFF, and then every speaker holds the
+	// REAL speakerlist.New(...) in its disabled mode (no bind address / labels: returns before
+	// memberlist.Create, opens no socket), so that the contract between internal/speakerlist and
+	// layer2Controller.speakersForPool ("disabled => every known node has a speaker") is exercised
+	// and not a fake that keeps Nodes == nil and Disabled in step
+	v.Disabled = r.Intn(3) == 0
 	v.Speakers = nil
 	for i := range v.Names {
 		v.Speakers = append(v.Speakers, i) // every node runs a speaker (they are the long-running ones)
@@ -232,7 +238,18 @@ func vmNewCluster(t *testing.T, v vView, reversed bool) *vmCluster {
 		cl.sl.nodes[nm] = true
 	}
 	for _, nm := range v.Names {
-		cl.spks = append(cl.spks, vmNewSpeaker(t, nm, cl.sl, v.Ignore))
+		var sl SpeakerList = cl.sl
+		if v.Disabled {
+			real, err := speakerlist.New(log.NewNopLogger(), nm, "", "", "", "metallb-system", "", false, make(chan struct{}))
+			if err != nil {
+				t.Fatalf("speakerlist.New (disabled mode): %v", err)
+			}
+			if info := real.UsableSpeakers(); !info.Disabled {
+				t.Fatalf("speakerlist.New without bind address / labels is not in disabled mode: %+v", info)
+			}
+			sl = real
+		}
+		cl.spks = append(cl.spks, vmNewSpeaker(t, nm, sl, v.Ignore))
 	}
 	cl.config(v, reversed)
 	return cl
@@ -307,6 +324,9 @@ func TestVerifL2Multi(t *testing.T) {
 				}
 			}
 			out.Stat("l2multi_checks", 1)
+			if cur.Disabled {
+				out.Stat("l2multi_checks_real_disabled_speakerlist", 1)
+			}
 			// (1) C04
 			switch {
 			case len(elig) == 0 && len(who) != 0:
